@@ -9,7 +9,7 @@ ROOTS = list(bridge.GEN_ROOTS)
 ASSUMPTIONS = [
     "lexer+linker (incl. apply_tagging_environment) run natively once per shape of the exhaustive 5-dimensional space; the tag number is a free u64 variable in the generator run (uniformity of the front end in the number checked with a second number)",
     "Tag IMPLICIT on an untagged CHOICE / open type is illegal source (X.680 31.2.9) and excluded",
-    "the explicit/implicit marking on a CHOICE-typed or open-type component is not asserted (rasn applies it on its own); class, number and presence are",
+    "the explicit/implicit marking on a CHOICE-typed or open-type component, alternative or alias is not asserted (the rasn runtime applies it on its own); class, number and presence are; a tagged CHOICE type assignment (the enum itself carries the tag) must be explicit under every module default",
     "std/proc_macro2/quote leaves modelled; validated by differential runs",
 ]
 DEFAULTS = ['EXPLICIT TAGS', 'IMPLICIT TAGS', 'AUTOMATIC TAGS', '']
@@ -62,8 +62,12 @@ def jobs(tier, seed):
     return [f"chunk{i}" for i in range(NCHUNK)]
 
 
-def expected_explicit(default, kw, kind):
-    """X.680 31.2.7; None = not asserted (CHOICE / open type: rasn applies explicit tagging itself)"""
+def expected_explicit(default, kw, kind, pos=None):
+    """X.680 31.2.7; None = not asserted (a component / alternative / alias whose type is a CHOICE or open type: the rasn
+    runtime turns the tag of a CHOICE into an explicit one itself); the one place where the generator has to do it - a tagged
+    CHOICE type assignment, which becomes the #[rasn(choice, tag(..))] enum itself - is asserted (31.2.7 c)"""
+    if kind == 'inline-choice' and pos == 'assign':
+        return True
     if kind in ('ref-choice', 'inline-choice', 'open'):
         return None
     if kw == 'EXPLICIT':
@@ -165,7 +169,7 @@ def judge(shape, items, numsym, chk=None, pc=None):
             fails.append(('number', f"tag number differs from the source for n = {model_int(m, numsym, False)}"))
     elif num != numsym:
         fails.append(('number', f"tag number {num} differs from the source {numsym}"))
-    exp = expected_explicit(d, kw, kind)
+    exp = expected_explicit(d, kw, kind, pos)
     if exp is not None and explicit != exp:
         fails.append(('mode', f"rendered {'explicit' if explicit else 'implicit'}, X.680 31.2.7 says {'explicit' if exp else 'implicit'}"))
     # a SEQUENCE/SET/CHOICE with a tagged component is never tagged automatically
